@@ -217,6 +217,13 @@ def on_corpus(p, r, exc, acc):
             acc.candidate(kind="marker-extraction", input=dict(extractor=r["which"], marker=marker, leading_blank_lines=r["layout"]),
                           detail="written on line %s, reported at %r" % (want, got))
     acc.sample(dict(extractor=r["which"], layout=r["layout"], markers=len(res)))
+    if r["which"] == "babel" and r["layout"] == 0:
+        # a template in another encoding than the extractor's default, declared by its magic comment (the Lingua plugin opens
+        # files in text mode itself, before Mako sees them: not asserted)
+        enc = realproc.call("extract_encoded", "babel")
+        acc.vcs += 1
+        if enc is not None and list(enc[0]) != list(enc[1]) :
+            acc.candidate(kind="message-encoding", input=dict(extractor="babel", encoded=True), detail="extracted %r, the template says %r" % (enc[0], enc[1]))
 
 
 def make_replay(c):
@@ -228,7 +235,12 @@ KIND = __KIND__
 from props.realops import extract_corpus, extract_template
 bad = None
 print("case:", CASE)
-if "marker" in CASE:
+if "encoded" in CASE:
+    from props.realops import extract_encoded
+    got, want = extract_encoded(CASE["extractor"])
+    print("extracted:", got, " written in the template:", want)
+    if list(got) != list(want): bad = "messages of a template whose magic comment names its encoding are extracted in another encoding"
+elif "marker" in CASE:
     for marker, want, got in extract_corpus(CASE["extractor"], CASE["leading_blank_lines"]):
         if marker == CASE["marker"]:
             print("marker", marker, "written on line", want, "reported at", got)
